@@ -159,6 +159,19 @@ func (k *kase) op(line string) string {
 		return out
 	}
 	k.judge()
+	if len(ws) == 1 && ws[0] == "restart" && !k.live && strings.HasPrefix(out, "need=") {
+		// readQueueToMemory: every queued blob is pending in the new process
+		v := k.e.Observe()
+		for _, i := range v.Rows {
+			if !has(v.Need, i) {
+				k.r.Fail("queued-row-not-reloaded-at-restart", fmt.Sprintf("after the restart the queue has %d rows but needCopy has %d entries; blob %d is queued and not pending (never copied by this process)", len(v.Rows), len(v.Need), i), "needCopy = rows", fmt.Sprintf("rows=%d need=%d", len(v.Rows), len(v.Need)), k.r.CaseOps())
+				break
+			}
+		}
+		if len(v.Rows) > 1000 {
+			k.r.Hit("mech:restart-over-large-queue")
+		}
+	}
 	return out
 }
 
@@ -771,6 +784,53 @@ func genMulti(r *hk.Run, random int) {
 	k.finish()
 }
 
+// Restarts over LARGE queues: n tiny blobs queued (bulkup), then a restart – every queued blob must be
+// pending in the new process (needCopy = rows) – then drain with the usual oracle. readQueueToMemory /
+// enumerateQueuedBlobs and runSync (maxBatch 1000, workch of 1000) see more than one "page".
+func genLargeQueue(r *hk.Run, sizes []int, live bool) {
+	for _, n := range sizes {
+		k := begin(r, fmt.Sprintf("large-queue n=%d", n))
+		k.op("up 1 ok")
+		k.op(fmt.Sprintf("bulkup %d", n))
+		k.op("restart")
+		k.op("dump")
+		k.op("drain ok -")
+		k.op("dump")
+		r.Hit(fmt.Sprintf("mech:large-queue:%d", n))
+		k.finish()
+		// two bulks, a partial drain with failures in between, two restarts
+		k = begin(r, fmt.Sprintf("large-queue-split n=%d", n))
+		k.op(fmt.Sprintf("bulkup %d", n/2))
+		k.op("restart")
+		k.op(fmt.Sprintf("bulkup %d", n-n/2))
+		k.op("drainfirst desterr 7")
+		k.op("up 2 ok")
+		k.op(fmt.Sprintf("bulkup %d", n))
+		k.op("restart")
+		k.op("dump")
+		k.finish()
+	}
+	if live {
+		// through the real syncLoop: the store is down while the queue fills, restart, then it is back
+		n := 1001
+		if r.Thorough() {
+			n = 2002
+		}
+		k := begin(r, fmt.Sprintf("large-queue-live n=%d", n))
+		k.op("live")
+		k.live = true
+		k.op("outage fetcherr")
+		k.op(fmt.Sprintf("bulkup %d", n))
+		k.op("restart")
+		k.op("awaitfail 5")
+		k.op("recover")
+		k.op("up 3 ok")
+		k.op("settle")
+		r.Hit("mech:large-queue-live")
+		k.finish()
+	}
+}
+
 // boundary sizes: 32768 (io.Copy's buffer), 32769, 65536, 511, MaxBlobSize-1, MaxBlobSize
 func genBoundarySizes(r *hk.Run, big bool) {
 	ids := []int{4, 5, 6, 7}
@@ -1002,7 +1062,7 @@ func genMalformed(r *hk.Run) {
 	k := begin(r, "malformed")
 	for _, o := range []string{"", "up", "up 1", "up x ok", "up 01 ok", "up 1 maybe", "up 12345 ok", "copy 1 ok", "copy 1 nofault ok",
 		"copy 1 ok nodq", "cpbegin 1 ok ok mid", "drain ok", "drain nofault -", "drain ok 1,,2", "drain ok ,", "restart now", "dump all",
-		"upend", "cpend x", "drainfirst desterr", "drainfirst corrupt 3", "drainfirst desterr x", "drainfirst destsize 2", "outage desterr", "recover", "copy 1 fetcherr: ok", "copy 1 fetcherr:nokind ok", "copy 1 fetcherr:eof:eof ok", "copy 1 ok:eof ok", "copy 1 fetchsize:eof ok",
+		"upend", "cpend x", "bulkup", "bulkup x", "bulkup 12345", "bulkup 2", "drainfirst desterr", "drainfirst corrupt 3", "drainfirst desterr x", "drainfirst destsize 2", "outage desterr", "recover", "copy 1 fetcherr: ok", "copy 1 fetcherr:nokind ok", "copy 1 fetcherr:eof:eof ok", "copy 1 ok:eof ok", "copy 1 fetchsize:eof ok",
 		"copy 1 shortread:eof0 ok:eof", "up 1 ok:eof", "up 1 qseterr:", "up 1 srcerr:eof0", "copy 1 ok qdelerr:x", "frobnicate", "live", "settle", "upbegin 1 ok", "upbegin 1 ok pre extra", "up 1 ok", "copy 1 ok ok", "dump"} {
 		k.op(o)
 	}
@@ -1018,9 +1078,14 @@ func genMalformed(r *hk.Run) {
 
 // Run is the generator + oracle of C19.
 func Run(r *hk.Run) {
-	r.Res.Rule = "cases: (a) witnesses of F-C19-1/2; (b) copy-fault matrix {all 32 fault words: ok, fetchsize, corrupt, destsize, shortread:eof0 and fetcherr/shortread/desterr x 9 error kinds (generic, os.ErrNotExist, PathError{ENOENT}, context.Canceled, DeadlineExceeded, io.EOF, io.ErrUnexpectedEOF, blobserver.ErrCorruptBlob, sorted.ErrNotFound)} x {queue.Delete ok/err} x {atomic, parked before/after queue.Delete} x {nothing, duplicate upload, failing upload, restart, other upload in between}; (c) upload matrix {nothing, acked, failed earlier upload} x {ok, queue.Set error, source error} x {parked before/after queue.Set} x 8 interleaved ops; (d) every op sequence of depth D (4 quick, 5 thorough) over a 16-op alphabet; (e) random walks over 4 blobs (ids 0..3: empty, 1 byte, two ordinary) and over 8 blobs (adding 32768/32769/65536/511 bytes) with all ops; (f) random scripts cut (crash + restart) after every prefix; (i) a zero-length / one-byte blob as the only pending item (first upload, alone after everything was delivered, only row at restart, after a failed attempt) in step and live mode, boundary sizes 511/32768/32769/65536/MaxBlobSize-1/MaxBlobSize, and all matrices for the empty, the 1-byte and an ordinary blob; (j) backlog + outage through the real runSync worker pool and the real syncLoop: 6..40 pending blobs in one batch, the source/destination failing for the whole batch, for k >= 5 of n blobs, for the first k attempts, or for a time window, then recovering (every wait under a watchdog: a runSync / syncLoop that never comes back is a finding with its ops); (k) a source with 2..3 sync handlers (own queue and destination each, hooks on one source hub; step-driven and via CreateHandler with the real loops): uploads during which one handler's queue.Set fails, at every registration position, then recovery – oracle per destination; (g) the real syncLoop via blobserver.CreateHandler(\"sync\") with restarts; (h) malformed ops. Every case ends with restart + failure-free drain and the liveness oracle; the safety oracle runs after every op. distinct = distinct op sequences; non-trivial = at least one acknowledged upload and one copy/drain/restart"
+	r.Res.Rule = "cases: (a) witnesses of F-C19-1/2; (b) copy-fault matrix {all 32 fault words: ok, fetchsize, corrupt, destsize, shortread:eof0 and fetcherr/shortread/desterr x 9 error kinds (generic, os.ErrNotExist, PathError{ENOENT}, context.Canceled, DeadlineExceeded, io.EOF, io.ErrUnexpectedEOF, blobserver.ErrCorruptBlob, sorted.ErrNotFound)} x {queue.Delete ok/err} x {atomic, parked before/after queue.Delete} x {nothing, duplicate upload, failing upload, restart, other upload in between}; (c) upload matrix {nothing, acked, failed earlier upload} x {ok, queue.Set error, source error} x {parked before/after queue.Set} x 8 interleaved ops; (d) every op sequence of depth D (4 quick, 5 thorough) over a 16-op alphabet; (e) random walks over 4 blobs (ids 0..3: empty, 1 byte, two ordinary) and over 8 blobs (adding 32768/32769/65536/511 bytes) with all ops; (f) random scripts cut (crash + restart) after every prefix; (i) a zero-length / one-byte blob as the only pending item (first upload, alone after everything was delivered, only row at restart, after a failed attempt) in step and live mode, boundary sizes 511/32768/32769/65536/MaxBlobSize-1/MaxBlobSize, and all matrices for the empty, the 1-byte and an ordinary blob; (j) backlog + outage through the real runSync worker pool and the real syncLoop: 6..40 pending blobs in one batch, the source/destination failing for the whole batch, for k >= 5 of n blobs, for the first k attempts, or for a time window, then recovering (every wait under a watchdog: a runSync / syncLoop that never comes back is a finding with its ops); (k) a source with 2..3 sync handlers (own queue and destination each, hooks on one source hub; step-driven and via CreateHandler with the real loops): uploads during which one handler's queue.Set fails, at every registration position, then recovery – oracle per destination; (l) restarts over large queues (bulkup: 1001/2002 queued tiny blobs in quick, 999..3003 in thorough; needCopy = rows after the restart, then drain), also through the real syncLoop; (g) the real syncLoop via blobserver.CreateHandler(\"sync\") with restarts; (h) malformed ops. Every case ends with restart + failure-free drain and the liveness oracle; the safety oracle runs after every op. distinct = distinct op sequences; non-trivial = at least one acknowledged upload and one copy/drain/restart"
 	genWitnesses(r)
 	genLonePending(r)
+	if r.Thorough() {
+		genLargeQueue(r, []int{999, 1000, 1001, 1002, 2000, 2002, 2500, 3003}, true)
+	} else {
+		genLargeQueue(r, []int{1001, 2002}, true)
+	}
 	if r.Thorough() {
 		genMulti(r, 3000)
 	} else {
